@@ -282,7 +282,12 @@ func (ch *channel) Free() {
 // receive is called by the connection to receive a message.
 func (ch *channel) receive(msg pmpx.Message) status.Status {
 	verifpoint.Point("ch.receive", verifpoint.Ptr(ch), int64(ch.refs.Load()), 0)
-	s := ch.acquire()
+	// The channel can be freed concurrently (user Free, handler exit, sent close),
+	// after the connection has looked it up. Messages for a freed channel are dropped.
+	s, ok := ch.tryAcquire()
+	if !ok {
+		return status.OK
+	}
 	defer ch.release()
 
 	// Ignore messages if closed
@@ -321,6 +326,26 @@ func (ch *channel) acquire() *channelState {
 		panic("acquire of freed channel")
 	}
 	return s
+}
+
+// tryAcquire increments the refcounter and returns the channel state, or false if freed.
+func (ch *channel) tryAcquire() (*channelState, bool) {
+	for {
+		refs := ch.refs.Load()
+		if refs <= 0 {
+			return nil, false
+		}
+		if !ch.refs.CompareAndSwap(refs, refs+1) {
+			continue
+		}
+
+		s := ch.state.Load()
+		if s == nil {
+			ch.release()
+			return nil, false
+		}
+		return s, true
+	}
 }
 
 // release decrements the internal refs counter.
